@@ -138,7 +138,7 @@ impl Prop for C04 {
         "C04"
     }
     fn rule(&self) -> String {
-        "graphs of all 8 kinds built by construction: n in 0..=9 (oracle: enumeration of all simple paths with pruning), n in 10..=20 and n in 21..=34 (oracle: Floyd-Warshall + path counts on the shortest-path DAG; takes the parallel code path), shape catalogue mixed in, shuffled insertion order; weight modes unweighted / positive dyadic / tie-rich {1,2} / non-negative with zeros (distances and path validity only) / non-dyadic floats (distances bit-equal to a same-fold Bellman-Ford, path validity). Calls: single_source from every source with (first_only,with_paths) in {(F,T),(T,T),(F,F)}, in weighted and hop-count mode, multi_source on a generated source subset, all_pairs. Non-trivial = some pair has >= 2 shortest paths, or some pair is unreachable, or parallel edges of different weight exist; distinct = distinct serialised case. Exhaustive block: all graphs on <= 3 nodes of the 4 single-edge kinds.".into()
+        "graphs of all 8 kinds built by construction: n in 0..=9 (oracle: enumeration of all simple paths with pruning), n in 10..=20 and n in 21..=34 (oracle: Floyd-Warshall + path counts on the shortest-path DAG; takes the parallel code path), shape catalogue mixed in, shuffled insertion order; weight modes unweighted / positive dyadic / tie-rich {1,2} / non-negative with zeros (distances and path validity only) / non-dyadic floats (distances bit-equal to a same-fold Bellman-Ford, path validity). Calls: single_source from every source with (first_only,with_paths) in {(F,T),(T,T),(F,F)}, in weighted and hop-count mode, multi_source on a generated source subset, all_pairs, and all_pairs with one generated target (inside a pool of 2-4 threads when n > 20). Non-trivial = some pair has >= 2 shortest paths, or some pair is unreachable, or parallel edges of different weight exist; distinct = distinct serialised case. Exhaustive block: all graphs on <= 3 nodes of the 4 single-edge kinds.".into()
     }
     fn assumptions(&self) -> Vec<String> {
         vec!["weights are non-negative; completeness of the path set is only asserted for strictly positive dyadic weights (exact sums)".into(), "the oracle library harness/src/oracle.rs".into()]
@@ -244,6 +244,42 @@ impl Prop for C04 {
                 }
             }
             let _ = all;
+            // all_pairs with a target (the statement quantifies over targets): every reported entry
+            // must carry the true distance, and the target is reported iff it is reachable. Large
+            // graphs run inside a small pool so that several sources share one worker.
+            if n > 0 && exact_arith {
+                let t = (case.sources as usize) % n;
+                out.api_calls += 1;
+                let r = if n > 20 {
+                    let pool = crate::props::c17::pool_of(2 + (case.sources as usize >> 8) % 3);
+                    guard(|| pool.install(|| dijkstra::all_pairs(&graph, weighted, Some(ng.names[t].clone()), None, false, true)))
+                } else {
+                    guard(|| dijkstra::all_pairs(&graph, weighted, Some(ng.names[t].clone()), None, false, true))
+                };
+                let ctx = format!("all_pairs[{},target]", mname);
+                match r {
+                    Err(p) => out.fail(format!("{}/panic/{}", ctx, panic_class(&p)), p),
+                    Ok(Err(e)) => out.fail(format!("{}/error/{}", ctx, kind_of(&e)), e.message.clone()),
+                    Ok(Ok(m)) => {
+                        for s in 0..n {
+                            let Some(ans) = m.get(&ng.names[s]) else {
+                                out.fail(format!("{}/sources/missing", ctx), format!("source {}", s));
+                                continue;
+                            };
+                            let has_t = ans.contains_key(&ng.names[t]);
+                            if has_t != (d[s][t] < INF) {
+                                out.fail(format!("{}/target_entry/presence", ctx), format!("source {} target {}: reported {} reachable {}", s, t, has_t, d[s][t] < INF));
+                            }
+                            for (k, info) in ans {
+                                let Some(u) = ng.index_of(k) else { continue };
+                                if info.distance != d[s][u] {
+                                    out.fail(format!("{}/distance/ne_oracle", ctx), format!("d({},{}) = {} but the shortest path length is {}", s, u, info.distance, d[s][u]));
+                                }
+                            }
+                        }
+                    }
+                }
+            }
         }
         if ng.has_parallel() {
             nontrivial = true;
